@@ -274,9 +274,7 @@ func replayMain(file, repo, specDir, out string) int {
 		return 2
 	}
 	unit := rep.Obligation
-	if i := strings.Index(unit, "/"); i >= 0 {
-		unit = unit[:i]
-	}
+	unit = unit[:unitSep(unit)]
 	g, err := loadGen(repo, specDir)
 	if err != nil {
 		fmt.Printf("VIOLATION property=%s replay=%s no-failing-input-found\n  the tree does not load: %v\n", rep.Property, file, err)
